@@ -47,9 +47,9 @@ def main(argv=None):
                         name = "%s#%d/%s/grid=%s/%s/x0=%s" % (sname, i, "-".join(map(str, mode)), gname, cont, xx)
                         c = stoch.Config(d, stoch.theta_for(d), xx, float(g[-1]), mode, grid=grid, name=name)
                         cfgs.append(c)
-                        # thorough: deviation bound 2 within one edit of SIR/BD/ONE, 1 around the other four seeds, 3 on the seeds
+                        # thorough: deviation bound 2 within one edit of SIR/BD/ONE on the uniform and near-miss grids, 1 elsewhere, 3 on the seeds
                         b = (2 if quick else 3) if (is_seed and cont == "array" and gname in ("fine", "near-miss", "uniform")) else \
-                            (bound if (quick or sname in ("SIR", "BD", "ONE")) else 1)
+                            (bound if (quick or (sname in ("SIR", "BD", "ONE") and gname in ("uniform", "near-miss"))) else 1)
                         jobs.append((c, b, 8000 if quick else 80000, "c15"))
     order = sorted(range(len(jobs)), key=lambda k: -jobs[k][1])
     jobs = [jobs[k] for k in order]
